@@ -86,25 +86,10 @@ theorem lex_work_poly (s : Array Cp) :
 theorem lex_work_poly_exists : ∃ c d : Nat, ∀ s : Array Cp, lexWork defaultCfg s ≤ c * (s.size + 1) ^ d :=
   ⟨_, _, lex_work_poly⟩
 
-/-- the degree of the bound for the current table: 6 = (largest certified work degree of a rule, 5) + 1.  A table change that raises the
-degree changes this decided fact, not the proof of `lex_work_poly`.  (The certificates are coarse: e.g. the JOIN rule's nested optional
-groups are bounded by a product of bounds; the true work is far smaller.) -/
-theorem lex_degree : (lexPB defaultCfg.rules).d = 6 := by decide +kernel
-
-theorem lex_coefficient : (lexPB defaultCfg.rules).c = 183998 := by decide +kernel
-
-/-- the per-rule work degrees the bound is made of (rule order of the table) -/
-theorem rule_work_degrees :
-    defaultCfg.rules.map (fun r => (rulePB r).d) =
-      [1, 1, 1, 1, 0, 1, 0, 0, 0, 1, 1, 2, 0, 2, 1, 1, 0, 1, 2, 1, 1, 2, 5, 3, 2, 1, 1, 1, 1, 5, 2, 1, 4, 0, 1, 1, 4, 1, 1, 1, 1, 1, 1,
-       2, 4, 2, 2, 1, 0, 1, 1, 1] := by decide +kernel
-
-/-- executing the cost model: `select 'a''b' from t` costs 921 tree nodes in total (driver command `lexwork`), far below the certified bound -/
-example : lexWork defaultCfg #[115, 101, 108, 101, 99, 116, 32, 39, 97, 39, 39, 98, 39, 32, 102, 114, 111, 109, 32, 116] ≤
-    183998 * 21 ^ 6 := by
-  have := lex_work_poly #[115, 101, 108, 101, 99, 116, 32, 39, 97, 39, 39, 98, 39, 32, 102, 114, 111, 109, 32, 116]
-  rw [lex_degree, lex_coefficient] at this
-  exact this
+/-- the bound's degree is one more than the largest certified work degree of a rule — stated relative to the table (the numbers for the
+current table, degree 6 and coefficient 183 998, are printed by the driver command `lexbound` into the evidence; they are NOT theorems, so that
+a harmless table edit that changes them does not break an obligation) -/
+theorem lex_degree_is_step_degree_plus_one : (lexPB defaultCfg.rules).d = (stepPB defaultCfg.rules).d + 1 := rfl
 
 /-- the certificate is not vacuous and not trivially permissive: `(a|a)*`, `(a*)*` and the historical overlapping string body get none;
 `(``|[^`])*` (disjoint first sets) gets one -/
